@@ -44,7 +44,8 @@ void verif_register(const char *name, void (*fn)(void));
   struct vin_##name##_s name##_s = VERIF_ND(name)(); \
   uint8_t *name = name##_s.b
 /* assign an already declared (e.g. global) variable / byte array */
-#define VERIF_IN_SET(type, name) do { type VERIF_ND(name)(void); name = VERIF_ND(name)(); } while (0)
+/* (through a declared temporary: only then does the CBMC trace carry return_value_nondet_vin_<name>, which the replay extracts) */
+#define VERIF_IN_SET(type, name) do { type VERIF_ND(name)(void); type name##_vin_tmp = VERIF_ND(name)(); name = name##_vin_tmp; } while (0)
 #define VERIF_IN_SETBUF(name, n) do { \
   struct vin_##name##_s { uint8_t b[n]; }; \
   struct vin_##name##_s VERIF_ND(name)(void); \
